@@ -190,7 +190,7 @@ def concatenate_clauses(ctx):
                       'a concatenated row is lost, duplicated, or not built from (all target fields -> None) + mapped values',
                       path=p.describe())
     # package phase state machine
-    ds = stream.descr_signature(ctx, func)
+    ds = stream.descr_signature(ctx, ctx.N(func))
     if ds[0] != 'sig':
         raise AnalysisError('concatenate: descriptor rebuild not recognised: %s' % (ds[1],))
     f, assign = ds[3], ds[4]
@@ -273,8 +273,20 @@ def concatenate_clauses(ctx):
     okq = okp
     if okp:
         t_ = post[0].test
-        conj = t_.values if isinstance(t_, ast.BoolOp) and isinstance(t_.op, ast.And) else [t_]
-        pc = [a_ for c_ in conj for a_ in cond_atoms(c_, True)]
+        # the atoms the test establishes: `A and B` gives A, B; `not (A or B)` gives not A, not B
+        conj_p = []
+
+        def split_(e_, pol_):
+            if isinstance(e_, ast.UnaryOp) and isinstance(e_.op, ast.Not):
+                split_(e_.operand, not pol_)
+            elif isinstance(e_, ast.BoolOp) and ((isinstance(e_.op, ast.And) and pol_) or (isinstance(e_.op, ast.Or) and not pol_)):
+                for v_ in e_.values:
+                    split_(v_, pol_)
+            else:
+                conj_p.append((e_, pol_))
+        split_(t_, True)
+        conj = [c_ for c_, _ in conj_p]
+        pc = [a_ for c_, pol_ in conj_p for a_ in cond_atoms(c_, pol_)]
         def excluded(v_, c_):
             # the condition rules the state value out: `v != c`, or `v == <another value>` of the same state variable
             return (v_, c_, False) in pc or any(a_[0] == v_ and a_[2] and a_[1] != c_ and a_[1] not in ('True', 'False') for a_ in pc)
